@@ -115,11 +115,11 @@ func (l lat) isFalse() bool {
 }
 
 // mayBe* are used to phrase "success" of a return.
-func (l lat) mayBeNil() bool    { return l.k == kNil || l.k == kTop }
+func (l lat) mayBeNil() bool { return l.k == kNil || l.k == kTop }
 func (l lat) mayBeNonNil() bool {
 	return l.k == kNonNil || l.k == kBigSlice || l.k == kNonEmpty || l.k == kTop
 }
-func (l lat) mayBeTrue() bool   { return l.isTrue() || l.k == kTop }
+func (l lat) mayBeTrue() bool { return l.isTrue() || l.k == kTop }
 func (l lat) mayBeNonZero() bool {
 	if l.k == kConst && l.c.Kind() == constant.Int {
 		return constant.Sign(l.c) != 0
@@ -170,15 +170,26 @@ type BinAssume struct {
 	Val   lat
 }
 
+// ValAssume binds any matching SSA value (e.g. "the sign bit extracted with >>7").
+type ValAssume struct {
+	Name  string
+	Match func(v ssa.Value, in *ssa.Function) bool
+	Val   lat
+}
+
 type GuardQuery struct {
 	P          *Program
 	Root       *ssa.Function
 	Args       []lat // abstract arguments of Root (nil => all top)
 	Assumes    []Assume
 	BinAssumes []BinAssume
+	ValAssumes []ValAssume
 	MaxDepth   int
 	// NoInline: callee names never descended into (result top)
 	NoInline map[string]bool
+	// Observe, if set, is called after the fixpoint of every analysed function
+	// context for each call instruction in an executable block.
+	Observe func(in *ssa.Function, site ssa.CallInstruction, callee string, get func(ssa.Value) lat)
 }
 
 type retInfo struct {
@@ -586,6 +597,27 @@ func (e *gEngine) analyse(f *ssa.Function, args []lat, depth int) *fnAnalysis {
 			if terminated {
 				break
 			}
+			if len(e.q.ValAssumes) > 0 {
+				if v, ok := in.(ssa.Value); ok {
+					hit := false
+					for _, va := range e.q.ValAssumes {
+						if va.Match(v, f) {
+							m := e.sites[va.Name]
+							if m == nil {
+								m = map[string]bool{}
+								e.sites[va.Name] = m
+							}
+							m[e.q.P.pos(in.Pos())] = true
+							set(v, va.Val)
+							hit = true
+							break
+						}
+					}
+					if hit {
+						continue
+					}
+				}
+			}
 			switch x := in.(type) {
 			case *ssa.Phi:
 				l := latBot
@@ -775,6 +807,19 @@ func (e *gEngine) analyse(f *ssa.Function, args []lat, depth int) *fnAnalysis {
 		if selfAgain {
 			// a value defined later in this block feeds an earlier instruction (loop header phi)
 			push(bi)
+		}
+	}
+	if e.q.Observe != nil {
+		for _, b := range f.Blocks {
+			if !execBlock[b.Index] {
+				continue
+			}
+			curBlock = b.Index
+			for _, in := range b.Instrs {
+				if ci, ok := in.(ssa.CallInstruction); ok {
+					e.q.Observe(f, ci, e.q.P.staticCalleeName(ci.Common()), get)
+				}
+			}
 		}
 	}
 	for _, b := range f.Blocks {
